@@ -7,8 +7,8 @@ for d in "$@"; do
   bad=""
   for p in C01 C02 C03 C04 C05 C06 C07 C08 C09 C10 C11 C12 C13 C14 C15 C16 C17 C18 C19; do
     out=$(./check $p 2>&1); rc=$?
-    if [ $rc -ne 0 ]; then bad="$bad $p($rc)"; echo "$out" | grep -m2 "REFUTED\|ANALYSIS-ERROR" | cut -c1-220 | sed "s|^|    [$p] |"; fi
+    if [ $rc -ne 0 ]; then bad="$bad $p($rc)"; [ -n "$VERBOSE" ] && echo "$out" | grep -m2 "REFUTED\|ANALYSIS-ERROR" | cut -c1-220 | sed "s|^|    [$p] |"; fi
   done
-  echo "== $(echo $d | sed 's|/tmp/wt2/out/||') :${bad:- all pass}"
-  git -C /repo checkout -- .
+  echo "== $d :${bad:- all pass}"
+  git -C /repo checkout -- . ; git -C /repo clean -fdq python
 done
